@@ -1,15 +1,21 @@
 #!/bin/bash
-# Must-pass corpus: semantics-preserving edits (selftest/harmless/<prop>-<name>.diff). Each is applied
-# to a scratch worktree; the property's check must still exit 0 (no alarm on code where the property holds).
+# Must-pass corpus: semantics-preserving edits (selftest/harmless/<prop>-<name>.diff written by hand,
+# selftest/harmless2/<prop>-<name>.diff written by sub-agents that saw only the property texts). Each is
+# applied to a scratch worktree; the property's check must still exit 0 (no alarm on code where the
+# property holds). Usage: selftest/harmless.sh [diff ...]   (default: both directories)
 cd /verif
-for d in selftest/harmless/*.diff; do
+files="$@"; [ -z "$files" ] && files=$(ls selftest/harmless/*.diff selftest/harmless2/*.diff)
+run_one() {
+  d=$1
   name=$(basename $d .diff); prop=${name%%-*}
   wt=/var/tmp/harmless-$name
   git -C /repo worktree remove --force $wt >/dev/null 2>&1; rm -rf $wt
-  git -C /repo worktree add --detach $wt HEAD >/dev/null 2>&1 || { echo "$name ERROR worktree"; continue; }
-  if ! git -C $wt apply /verif/$d 2>/dev/null; then echo "$name ERROR patch does not apply"; git -C /repo worktree remove --force $wt; continue; fi
+  git -C /repo worktree add --detach $wt HEAD >/dev/null 2>&1 || { echo "$name ERROR worktree"; return; }
+  if ! git -C $wt apply /verif/$d 2>/dev/null; then echo "$name ERROR patch does not apply"; git -C /repo worktree remove --force $wt; return; fi
   (cd $wt && GOFLAGS=-mod=mod GOPROXY=off GOSUMDB=off GOTOOLCHAIN=local go build ./... ) || echo "$name DOES NOT BUILD"
   /verif/bin/govc check --repo $wt --property $prop --evidence-dir /var/tmp/seed-evidence > /var/tmp/harmless_$name.log 2>&1; rc=$?
-  if [ $rc -eq 0 ]; then echo "$name QUIET"; else echo "$name ALARM rc=$rc: $(grep -E 'VIOLATION|BROKEN' /var/tmp/harmless_$name.log | head -2 | cut -c1-200)"; fi
+  if [ $rc -eq 0 ]; then echo "$name QUIET"; else echo "$name ALARM rc=$rc: $(grep -E 'VIOLATION|BROKEN' /var/tmp/harmless_$name.log | head -2 | cut -c1-260)"; fi
   git -C /repo worktree remove --force $wt >/dev/null 2>&1; rm -rf $wt
-done
+}
+export -f run_one
+echo $files | tr ' ' '\n' | xargs -P ${HARMLESS_JOBS:-3} -I{} bash -c 'run_one {}' | sort
